@@ -284,6 +284,8 @@ var divFunc = func(t iterator, m, n interface{}) interface{} {
 // modFunc is an 'MOD' operator.
 var modFunc = func(t iterator, m, n interface{}) interface{} {
 	return numericExpr(t, m, n, func(a, b float64) float64 {
-		return float64(int(a) % int(b))
+		// XPath mod is the truncating remainder (NaN for a zero divisor);
+		// converting the operands to int panicked on "1 mod 0".
+		return math.Mod(a, b)
 	})
 }
